@@ -5,7 +5,7 @@ import ast
 from typing import Any
 
 from sa.codec import SERVICE, ClassAnalysis, CodecAnalyser, PathResult, Registry, field_origin
-from sa.layout import IntV, Lin, ObjV, State, int_const, trim_bits
+from sa.layout import ConstV, IntV, Lin, ObjV, Raised, State, int_const, trim_bits
 from sa.model import AnalysisError, ClassInfo, FuncInfo, Model, walk_no_nested
 from sa.oracles import iso14229
 from sa.report import Report
@@ -130,6 +130,8 @@ def run(m: Model, r: Report, tier: str) -> None:
     r.rule("R6", "parse_pdu decision structure: mismatch before malformed; raw-request fallback and matches() test the same parsed request; "
                  "trigger_request only set on acceptance", floor=4)
     r.rule("R9", "a reply of another registered service (or another sub-function of the service) cannot satisfy matches()", floor=35)
+    r.rule("R11", "evaluating matches() abstractly on (parsed request, parsed response) with equal echoed bytes never refuses: a refusal "
+                  "must depend on a comparison that involves the received bytes", floor=30)
     r.rule("R10", "the response parser admits every ISO-minimal genuine reply (length envelope, no index beyond the checked length)", floor=34)
 
     UDSRequest = reg.UDSRequest
@@ -218,6 +220,38 @@ def run(m: Model, r: Report, tier: str) -> None:
         r.check(not leaks, "R9", construct,
                 f"matches() also accepts requests {leaks[:4]}: its isinstance test admits them and nothing compares "
                 "the service / sub-function", loc=mt.funcs[0].loc)
+        # R11
+        mf = mt.funcs[0]
+        import re as _re
+        refusals = []
+        n_eval = 0
+        for rp in pa.accepted:
+            for qp in ra.accepted:
+                st = rp.state.clone()
+                base_facts = len(st.facts)
+                oid = st.next_id
+                st.next_id += 1
+                st.heap[oid] = ObjV(qp.obj_cls, dict(qp.fields), oid)
+                try:
+                    outs = ca.interp.call_function(st, mf, [ObjV(qp.obj_cls, {}, oid)], {}, self_val=ObjV(rp.obj_cls, {}, rp.oid))
+                except AnalysisError as e:
+                    refusals.append(f"matches() uses a construct the interpreter does not model: {e}")
+                    break
+                for st2, v in outs:
+                    n_eval += 1
+                    new = st2.facts[base_facts:]
+                    if isinstance(v, Raised):
+                        refusals.append(f"matches() raises {v.exc} ({v.where})")
+                        continue
+                    val = v.value if isinstance(v, ConstV) else None
+                    if val is False:
+                        wire_dependent = any(_re.search(r"pdu\[|\bL\b|from_bytes|bits<", f.vtext or repr(f)) for f in new if f.kind in ("opaque", "bits", "len")) \
+                            or any(f.kind in ("bits", "len") for f in new)
+                        if not wire_dependent:
+                            refusals.append("returns False on a path that does not look at the received bytes: "
+                                            + "; ".join(f.text or repr(f) for f in new)[:300])
+        r.check(not refusals, "R11", construct, "; ".join(sorted(set(refusals)))[:700] +
+                ": the genuine reply (same echoed bytes) is refused", loc=mf.loc, fact_ok=f"{n_eval} abstract outcomes")
         # R10
         key = (p.service_id, p.sub_function_id)
         if key not in iso14229.RESP:
